@@ -86,9 +86,9 @@ wr('WriteByte','b','BYTE',{'ti':'int(b)'})
 wr('WriteBool','b','BYTE',{'ti':'ite(b, 1, 0)'})
 wr('WriteShort','b','SHORT',{'ti':'int(b)'})
 wr('WriteUShort','b','SHORT',{'ti':'int(int16(b))'})
-wr('WriteInt3','b','INT3',{'ti':'int((b << 8) >> 8)'})
+wr('WriteInt3','b','INT3',{'ti':'int(goarith((b << 8) >> 8))'})
 wr('WriteInt','b','INT',{'ti':'int(b)'})
-wr('WriteLong5','b','LONG5',{'ti':'int((b << 24) >> 24)'})
+wr('WriteLong5','b','LONG5',{'ti':'int(goarith((b << 24) >> 24))'})
 wr('WriteLong','b','LONG',{'ti':'int(b)'})
 wr('WriteFloat','b','FLOAT',{'ti':'int(bits(b))'})
 wr('WriteDouble','b','DOUBLE',{'ti':'int(bits(b))'})
